@@ -26,9 +26,11 @@ type tcpHalf struct {
 
 // TCPConn is the simulated *net.TCPConn.
 //
-// It deliberately has no ReadFrom/WriteTo methods: towards a non-socket peer the real type's
-// fast paths degrade to generic copying, and shadowsocks-go's own ReadFrom/WriteTo
-// implementations are what io.Copy picks in production.
+// Like the real type it implements io.WriterTo and io.ReaderFrom; towards a peer that is not a
+// socket or file the real fast paths (splice, sendfile) do not apply and the methods fall back
+// to generic copying through a wrapper that hides them — exactly what happens here — so code
+// that type-asserts on these interfaces, and io.Copy itself, take the same routes as in
+// production.
 type TCPConn struct {
 	w      *World
 	si     *SockInfo
@@ -595,4 +597,33 @@ func sleepCtx(ctx context.Context, w *World, d time.Duration) bool {
 	defer stop()
 	w.S.Park("ctx.sleep", "", func() bool { return ctx.Err() != nil || !time.Now().Before(at) }, func() time.Time { return at })
 	return ctx.Err() == nil
+}
+
+// noWriteTo / noReadFrom hide the promoted methods of an embedded *TCPConn, like package net does.
+type noWriteTo struct{}
+
+func (noWriteTo) WriteTo(noWriteTo) {}
+
+type noReadFrom struct{}
+
+func (noReadFrom) ReadFrom(noReadFrom) {}
+
+type tcpConnWithoutWriteTo struct {
+	noWriteTo
+	*TCPConn
+}
+
+type tcpConnWithoutReadFrom struct {
+	noReadFrom
+	*TCPConn
+}
+
+// WriteTo implements io.WriterTo (generic copy: the peer is never a kernel object here).
+func (c *TCPConn) WriteTo(w io.Writer) (int64, error) {
+	return io.Copy(w, tcpConnWithoutWriteTo{TCPConn: c})
+}
+
+// ReadFrom implements io.ReaderFrom (generic copy).
+func (c *TCPConn) ReadFrom(r io.Reader) (int64, error) {
+	return io.Copy(tcpConnWithoutReadFrom{TCPConn: c}, r)
 }
